@@ -120,6 +120,19 @@ def one_case(args):
     (idx, user, stack_pw, conv_pw, opts, chunks, connect, close_at_end, early_close, cls, tmo, extra) = args
     d = tempfile.mkdtemp(prefix="verif-pam-")
     path = os.path.join(d, "s")
+    if extra.get("socklen"):
+        # a socket path of exactly this many bytes (sun_path holds 108)
+        x = extra["socklen"] - len(d) - 3
+        if x >= 1:
+            mid = ["p"] * x
+            for pos in range(200, x - 1, 201):
+                mid[pos] = "/"
+            sub = os.path.join(d, "".join(mid))
+            try:
+                os.makedirs(sub, exist_ok=True)
+            except OSError:
+                pass
+            path = os.path.join(sub, "s")
     srv = Srv(path, chunks, listen=connect, close_at_end=close_at_end, early_close=early_close)
     srv.start()
     hx = lambda b: "-" if b is None else (b.hex() or "00"[:0]) or ""
@@ -273,6 +286,12 @@ def gen(prop, seed, tier):
                                 ("cut-in-header", [(400, part(b"OK")[:1])], True), ("cut-in-body", [(400, part(b"OK success")[:5])], True),
                                 ("silence", [], False)]:
         add("signal/" + name, chunks=chunks, close=close, opts=[b"timeout=2"], tmo=2, signal_ms=120, signals=2)
+    # (4d) the length of the socket path option: sun_path holds 108 bytes including the terminator
+    for L in (90, 106, 107, 108, 109, 110, 200, 4000):
+        add("options/sock-length-%d" % L, connect=False, socklen=L)
+    for L in (90, 106, 107):
+        add("options/sock-length-%d" % L, chunks=[(0, part(b"OK"))], socklen=L)
+        add("options/sock-length-%d" % L, chunks=[(0, part(b"NO"))], socklen=L)
     # (5) unreachable socket, early close, silence on either side of the timeout
     add("server/unreachable", connect=False)
     add("server/early-close", early=True)
